@@ -271,6 +271,11 @@ func (g *Gen) genMatch(paths []PathInfo, illTyped bool) GExpr {
 				fit = []string{"eq", "ne", "in", "notin", "empty", "notempty", "matches", "notmatches"}
 			case reflect.Slice, reflect.Array, reflect.Map:
 				fit = []string{"in", "notin", "empty", "notempty", "in"}
+				// byte sequences of every declared type ([]byte, named slices, slices of a named byte
+				// type, byte arrays) are what `matches` converts — or refuses to convert
+				if sv.Kind() != reflect.Map && sv.Type().Elem().Kind() == reflect.Uint8 {
+					fit = append(fit, "matches", "notmatches", "matches", "notmatches", "matches")
+				}
 			}
 		}
 		if len(fit) > 0 {
